@@ -171,7 +171,8 @@ def merged_data(syntax_type: str, syntax: str, key: str, user_config: dict, glob
     empty = {}
     type_defaults = SYNTAX_CONFIG.get(syntax_type, empty)
     type_override = global_config.get(syntax_type, empty)
-    syntax_defaults = SYNTAX_CONFIG.get(syntax, empty)
+    # NB: name of abbreviation type is not a syntax: its section holds type defaults
+    syntax_defaults = SYNTAX_CONFIG.get(syntax, empty) if syntax not in DEFAULT_SYNTAXES else empty
     syntax_override = global_config.get(syntax, empty)
 
     result = {}
